@@ -107,10 +107,17 @@ class Probe:
         p = os.path.join(ctx.sub("c04"), "probe.py")
         open(p, "w").write(PROBE)
         env = dict(os.environ, MOLLI_REPO_DIR=vlib.REPO)
+        self.env = env
         self.p = subprocess.Popen([vlib.PY, p], stdin=subprocess.PIPE, stdout=subprocess.PIPE, text=True, env=env)
 
     def free(self, path):
+        import select
         self.p.stdin.write(path + "\n"); self.p.stdin.flush()
+        r, _, _ = select.select([self.p.stdout], [], [], 60)
+        if not r:                      # the probe itself hangs in the lock: it is not free
+            self.p.kill()
+            self.p = subprocess.Popen(self.p.args, stdin=subprocess.PIPE, stdout=subprocess.PIPE, text=True, env=self.env)
+            return False
         return self.p.stdout.readline().strip() == "free"
 
     def close(self):
